@@ -102,10 +102,31 @@ def d1_no_mutation(ctx):
                    "call with the same length (shifts no longer add up; a zero shift disables all later shifts)") if memo else
                   f"`{src(n)[:70]}` can modify the caller's array `{param}` in place (through {[(k, src(d.stmt)[:40] if d.stmt else 'parameter') for k, d in bad]}) for real input",
                   key="mut:" + var)
+    args_untouched(ctx, fi, [p_ for p_ in fi.params if p_ != param])
     # do_fft is the negation of "input is complex"
     dd = [d for d in du.defs if d.var == "do_fft" and d.kind == "assign"]
     ok = bool(dd) and "iscomplex" in src(dd[0].value) and ("invert" in src(dd[0].value) or "not " in src(dd[0].value) or "~" in src(dd[0].value))
     ctx.check(ok, fi, dd[0].stmt if dd else fi.node, dd[0].stmt if dd else "do_fft", "the transform path is taken exactly for real input", "do_fft is not `input is not complex`", key="do_fft")
+
+
+def args_untouched(ctx, fi, others, rule=None):
+    """No in-place statement of `fi` may act on a value that can share the storage of one of the parameters `others`, on any path."""
+    try:
+        paths = _sym_paths(fi.node.body, _PathRec(), [4000], need_exp=False)
+    except Undecided as e:
+        raise AnalysisError(f"{fi.qualname}: paths not enumerable ({e})")
+    seen = set()
+    for pth in paths:
+        for cur, st in pth.inplace:
+            who = _may_alias(cur, others)
+            if who is None or id(st) in seen:
+                continue
+            seen.add(id(st))
+            ctx.violation(fi, st, st, f"`{src(st)[:70]}` acts in place on `{src(cur)[:80]}`, which shares the storage of the caller's `{who}` whenever no conversion is needed "
+                          f"(an ndarray of the requested dtype): the caller's {who} are overwritten, so the NEXT call made with the same vector (one trace header reused "
+                          "over batches, AP then LF) applies different shifts", key="mut-arg:" + who, name_free=True, rule=rule)
+    if not seen:
+        ctx.ok(fi, fi.node, "in-place statements", f"no in-place statement acts on a value sharing storage with {others}", key="mut-arg", rule=rule)
 
 
 DTYPE_PRESERVING = ("roll", "copy", "flip", "flipud", "fliplr", "ascontiguousarray", "squeeze", "reshape", "transpose", "take", "ravel")
@@ -161,10 +182,603 @@ def d2_restore(ctx):
               "ns defaults to the length along the shift axis", "ns is not `ns or w.shape[axis]`", key="ns")
 
 
+# ---------------------------------------------------------------------------------------------------------------------
+# path-sensitive model of the phase factor: exp(<exponent>) with every local substituted away, one record per path
+# ---------------------------------------------------------------------------------------------------------------------
+import copy as _copy
+
+
+class _SubstEnv(ast.NodeTransformer):
+    def __init__(self, env):
+        self.env = env
+
+    def visit_Name(self, node):
+        if isinstance(node.ctx, ast.Load) and node.id in self.env:
+            return _copy.deepcopy(self.env[node.id])
+        return node
+
+    def visit_Lambda(self, node):
+        return node
+
+    def visit_ListComp(self, node):
+        return node
+    visit_GeneratorExp = visit_SetComp = visit_DictComp = visit_ListComp
+
+
+def _sub(env, e):
+    return _SubstEnv(env).visit(_copy.deepcopy(e))
+
+
+def _setitem(base, idx, val):
+    return ast.Call(func=ast.Name(id="__setitem", ctx=ast.Load()), args=[base, idx, val], keywords=[])
+
+
+class _PathRec:
+    def __init__(self):
+        self.env = {}
+        self.assume = []     # (substituted test, polarity)
+        self.exps = []       # (exp call substituted, original call)
+        self.inplace = []    # (substituted value of the target before the in-place statement, statement)
+        self.sites = []      # (original exp call, substituted multiplication target or None, substituted statement value, assumptions)
+        self.done = False
+
+    def fork(self):
+        r = _PathRec()
+        r.env = dict(self.env)
+        r.assume = list(self.assume)
+        r.exps = list(self.exps)
+        r.inplace = list(self.inplace)
+        r.sites = list(self.sites)
+        return r
+
+
+def _sym_paths(stmts, path, budget, need_exp=True):
+    """Substitution-based symbolic execution of a loop-free statement list. -> list of _PathRec"""
+    paths = [path]
+    for st in stmts:
+        nxt = []
+        for pth in paths:
+            if pth.done:
+                nxt.append(pth)
+                continue
+            budget[0] -= 1
+            if budget[0] < 0:
+                raise Undecided("too many paths")
+            for c in find(st, ast.Call) if not isinstance(st, (ast.If, ast.For, ast.While, ast.With, ast.Try)) else []:
+                if call_name(c) == "exp":
+                    pth.exps.append((_sub(pth.env, c), c))
+                    if isinstance(st, ast.AugAssign) and isinstance(st.op, ast.Mult):
+                        tgt = st.target
+                        tv = _sub(pth.env, ast.Name(id=tgt.id, ctx=ast.Load())) if isinstance(tgt, ast.Name) else \
+                            _sub(pth.env, _copy.deepcopy(tgt)) if isinstance(tgt, ast.Subscript) else None
+                        if tv is not None:
+                            for n_ in ast.walk(tv):
+                                if hasattr(n_, "ctx"):
+                                    n_.ctx = ast.Load()
+                        pth.sites.append((c, tv, _sub(pth.env, st.value), list(pth.assume)))
+                    elif isinstance(st, ast.Assign):
+                        pth.sites.append((c, None, _sub(pth.env, st.value), list(pth.assume)))
+            if isinstance(st, ast.Assign) and len(st.targets) == 1:
+                t = st.targets[0]
+                if isinstance(t, ast.Name):
+                    pth.env[t.id] = _sub(pth.env, st.value)
+                elif isinstance(t, ast.Subscript) and isinstance(t.value, ast.Name):
+                    base = pth.env.get(t.value.id, ast.Name(id=t.value.id, ctx=ast.Load()))
+                    pth.inplace.append((base, st))
+                    pth.env[t.value.id] = _setitem(base, _sub(pth.env, t.slice), _sub(pth.env, st.value))
+                elif isinstance(t, ast.Tuple) and isinstance(st.value, ast.Tuple) and len(t.elts) == len(st.value.elts) and all(isinstance(x, ast.Name) for x in t.elts):
+                    vals = [_sub(pth.env, v) for v in st.value.elts]
+                    for x, v in zip(t.elts, vals):
+                        pth.env[x.id] = v
+                else:
+                    for n in ast.walk(t):
+                        if isinstance(n, ast.Name):
+                            pth.env.pop(n.id, None)
+                nxt.append(pth)
+            elif isinstance(st, ast.AugAssign) and isinstance(st.target, ast.Name):
+                cur = pth.env.get(st.target.id, ast.Name(id=st.target.id, ctx=ast.Load()))
+                pth.inplace.append((cur, st))
+                pth.env[st.target.id] = ast.BinOp(left=cur, op=st.op, right=_sub(pth.env, st.value))
+                nxt.append(pth)
+            elif isinstance(st, ast.If):
+                ok, tv = const_value(st.test)
+                t = _sub(pth.env, st.test)
+                for pol, body in ((True, st.body), (False, st.orelse)):
+                    if ok and bool(tv) != pol:
+                        continue
+                    q = pth.fork()
+                    q.assume.append((t, pol))
+                    nxt += _sym_paths(body, q, budget, need_exp)
+            elif isinstance(st, (ast.Return, ast.Raise)):
+                pth.done = True
+                nxt.append(pth)
+            elif isinstance(st, ast.For) and need_exp and any(call_name(c) == "exp" for c in find(st, ast.Call)) and not st.orelse:
+                # one generic iteration: the loop targets are unknown values, what the body binds stays visible
+                for n in ast.walk(st.target):
+                    if isinstance(n, ast.Name):
+                        pth.env[n.id] = ast.Name(id="__loop_" + n.id, ctx=ast.Load())
+                nxt += _sym_paths(st.body, pth, budget, need_exp)
+            elif isinstance(st, (ast.For, ast.While, ast.With, ast.Try)):
+                if need_exp and any(call_name(c) == "exp" for c in find(st, ast.Call)):
+                    raise Undecided(f"phase factor inside a {type(st).__name__} block")
+                # names assigned in the block are unknown afterwards; in-place statements inside it act on what the names held on entry
+                # (or on what the block itself bound them to: then the value is local to the block and taken as written)
+                stored = {n.id for n in ast.walk(st) if isinstance(n, ast.Name) and isinstance(n.ctx, ast.Store)}
+                for n in ast.walk(st):
+                    if isinstance(n, ast.AugAssign) and isinstance(n.target, ast.Name):
+                        pth.inplace.append((pth.env.get(n.target.id, ast.Name(id=n.target.id, ctx=ast.Load())), n))
+                    elif isinstance(n, ast.Assign) and isinstance(n.targets[0], ast.Subscript) and isinstance(n.targets[0].value, ast.Name):
+                        b = n.targets[0].value.id
+                        pth.inplace.append((pth.env.get(b, ast.Name(id=b, ctx=ast.Load())), n))
+                for v in stored:
+                    pth.env[v] = ast.Name(id="__unknown_" + v, ctx=ast.Load())
+                nxt.append(pth)
+            else:
+                nxt.append(pth)
+        paths = nxt
+    return paths
+
+
+def _scalar_test(t, sp):
+    """Does the (substituted) test `t` being TRUE say the shifts are scalar ('scalar') or an array ('array')?  None: unrelated."""
+    if isinstance(t, ast.UnaryOp) and isinstance(t.op, ast.Not):
+        r = _scalar_test(t.operand, sp)
+        return {"scalar": "array", "array": "scalar"}.get(r)
+    mentions = any(isinstance(n, ast.Name) and n.id == sp for n in ast.walk(t))
+    if not mentions:
+        return None
+    if isinstance(t, ast.Call) and call_name(t) == "isscalar":
+        return "scalar"
+    if isinstance(t, ast.Call) and call_name(t) == "invert" and t.args:
+        return {"scalar": "array", "array": "scalar"}.get(_scalar_test(t.args[0], sp))
+
+    def is_ndim(e):
+        return (isinstance(e, ast.Attribute) and e.attr == "ndim") or (isinstance(e, ast.Call) and call_name(e) == "ndim")
+    if is_ndim(t):
+        return "array"
+    if isinstance(t, ast.Compare) and len(t.ops) == 1 and is_ndim(t.left):
+        ok, v = const_value(t.comparators[0])
+        if ok:
+            op = t.ops[0]
+            if (isinstance(op, ast.Gt) and v == 0) or (isinstance(op, ast.GtE) and v == 1) or (isinstance(op, ast.NotEq) and v == 0):
+                return "array"
+            if (isinstance(op, ast.Eq) and v == 0) or (isinstance(op, ast.Lt) and v == 1) or (isinstance(op, ast.LtE) and v == 0):
+                return "scalar"
+    return None
+
+
+_WRAP = ("array", "asarray", "asanyarray", "astype", "atleast_1d", "float64", "float32", "copy", "ascontiguousarray")
+
+
+def _unit_axis_shape(e, params):
+    """Is `e` a shape equal to the data's shape with the shift axis set to 1?  (w.shape and the spectrum's shape differ only along that axis.)"""
+    if not (isinstance(e, ast.Call) and call_name(e) == "__setitem" and len(e.args) == 3):
+        return False
+    base, idx, val = e.args
+    if not (loc_name(idx) == "axis" and const_value(val) == (True, 1)):
+        return False
+    while isinstance(base, ast.Call) and call_name(base) in ("list", "array", "asarray", "tuple") and base.args:
+        base = base.args[0]
+    return _is_data_shape(base, params)
+
+
+def _is_data(e, params):
+    """the input array or its spectrum along the shift axis"""
+    if isinstance(e, ast.Name) and e.id == params[0]:
+        return True
+    if isinstance(e, ast.IfExp):
+        return _is_data(e.body, params) and _is_data(e.orelse, params)
+    if isinstance(e, ast.Call) and call_name(e) in ("rfft",) and e.args and loc_name(kwarg(e, "axis")) == "axis":
+        return _is_data(e.args[0], params)
+    return False
+
+
+def _is_data_shape(e, params):
+    return isinstance(e, ast.Attribute) and e.attr == "shape" and _is_data(e.value, params)
+
+
+def _shape_len_vec(e, params, depth=0):
+    """an integer vector with one entry per dimension of the data (its values do not matter)"""
+    if depth > 6:
+        return False
+    while isinstance(e, ast.Call) and call_name(e) in ("list", "array", "asarray", "copy") and (e.args or isinstance(e.func, ast.Attribute)):
+        e = e.args[0] if e.args else e.func.value
+    if _is_data_shape(e, params):
+        return True
+    if isinstance(e, ast.Call) and call_name(e) == "__setitem":
+        return _shape_len_vec(e.args[0], params, depth + 1)
+    if isinstance(e, ast.BinOp) and isinstance(e.op, (ast.Add, ast.Mult, ast.Sub)) and isinstance(e.right, ast.Constant) and not isinstance(e.left, ast.List):
+        return _shape_len_vec(e.left, params, depth + 1)
+    return False
+
+
+def _axis_only_shape(e, params):
+    """Is `e` a shape that is 1 everywhere except along the shift axis?"""
+    if not (isinstance(e, ast.Call) and call_name(e) == "__setitem" and len(e.args) == 3):
+        return False
+    base, idx, val = e.args
+    if loc_name(idx) != "axis":
+        return False
+    while isinstance(base, ast.Call) and call_name(base) in ("list", "array", "asarray") and base.args:
+        base = base.args[0]
+    if isinstance(base, ast.BinOp) and isinstance(base.op, ast.Add) and const_value(base.right) == (True, 1) and isinstance(base.left, ast.BinOp) \
+            and isinstance(base.left.op, ast.Mult) and const_value(base.left.right) == (True, 0):
+        return _shape_len_vec(base.left.left, params)   # array(w.shape) * 0 + 1
+    if isinstance(base, ast.BinOp) and isinstance(base.op, ast.Mult):
+        lst, n = (base.left, base.right) if isinstance(base.left, ast.List) else (base.right, base.left)
+        if isinstance(lst, ast.List) and len(lst.elts) == 1 and const_value(lst.elts[0]) == (True, 1):
+            return isinstance(n, ast.Attribute) and n.attr == "ndim" and _is_data(n.value, params) or \
+                (isinstance(n, ast.Call) and call_name(n) == "len" and n.args and _is_data_shape(n.args[0], params))
+    if isinstance(base, ast.Call) and call_name(base) in ("ones", "ones_like") and base.args:
+        a = base.args[0]
+        return (isinstance(a, ast.Attribute) and a.attr == "ndim" and _is_data(a.value, params)) or _is_data_shape(a, params) \
+            or (isinstance(a, ast.Call) and call_name(a) == "len" and a.args and _is_data_shape(a.args[0], params))
+    return False
+
+
+def _shift_term(exponent, sp):
+    """The maximal wrapper chain (array / reshape / astype / [..., None]) around the shift parameter inside the exponent.
+    -> list of (outermost node, [reshape shape args], [index expressions])"""
+    parents = {}
+    for par in ast.walk(exponent):
+        for ch in ast.iter_child_nodes(par):
+            parents[id(ch)] = par
+    out = []
+    for n in ast.walk(exponent):
+        if isinstance(n, ast.Name) and n.id == sp and isinstance(n.ctx, ast.Load):
+            cur, shapes, subs = n, [], []
+            while True:
+                par = parents.get(id(cur))
+                if isinstance(par, ast.Call) and call_name(par) in _WRAP and ((par.args and par.args[0] is cur) or (isinstance(par.func, ast.Attribute) and par.func.value is cur)):
+                    cur = par
+                elif isinstance(par, ast.Attribute) and par.value is cur and isinstance(parents.get(id(par)), ast.Call) and parents[id(par)].func is par:
+                    call = parents[id(par)]
+                    if par.attr == "reshape":
+                        shapes.append(call.args[0] if len(call.args) == 1 else ast.Tuple(elts=list(call.args), ctx=ast.Load()))
+                        cur = call
+                    elif par.attr in _WRAP:
+                        cur = call
+                    else:
+                        break
+                elif isinstance(par, ast.Call) and call_name(par) == "reshape" and len(par.args) >= 2 and par.args[0] is cur:
+                    shapes.append(par.args[1])
+                    cur = par
+                elif isinstance(par, ast.Call) and call_name(par) == "expand_dims" and par.args and par.args[0] is cur:
+                    shapes.append(par)
+                    cur = par
+                elif isinstance(par, ast.Subscript) and par.value is cur:
+                    subs.append(par.slice)
+                    cur = par
+                else:
+                    break
+            # a use inside a test of the shift itself (ndim / isscalar) is not part of the value
+            par = parents.get(id(cur))
+            if isinstance(par, ast.Attribute) and par.attr in ("ndim", "shape", "size", "dtype"):
+                continue
+            if isinstance(par, ast.Call) and call_name(par) in ("isscalar", "ndim", "size", "shape"):
+                continue
+            out.append((cur, shapes, subs))
+    return out
+
+
+_VIEW_METHODS = ("reshape", "ravel", "squeeze", "view", "transpose", "swapaxes")
+_NOCOPY_FUNCS = ("asarray", "asanyarray", "atleast_1d", "atleast_2d", "ascontiguousarray", "reshape", "ravel", "squeeze", "transpose", "broadcast_to", "expand_dims")
+
+
+def _may_alias(e, params):
+    """Parameter whose storage the value `e` can share (numpy model: asarray / reshape / basic indexing / astype(copy=False) return the
+    argument's own buffer when no conversion is needed; np.array copies unless copy=False)."""
+    if isinstance(e, ast.Name):
+        return e.id if e.id in params else None
+    if isinstance(e, ast.IfExp):
+        return _may_alias(e.body, params) or _may_alias(e.orelse, params)
+    if isinstance(e, ast.Attribute) and e.attr in ("T", "real", "imag", "flat"):
+        return _may_alias(e.value, params)
+    if isinstance(e, ast.Subscript):
+        return _may_alias(e.value, params) if isinstance(e.slice, (ast.Slice, ast.Tuple, ast.Constant)) else None
+    if isinstance(e, ast.Call):
+        nm = call_name(e)
+        if nm == "__setitem":
+            return _may_alias(e.args[0], params)
+        meth = isinstance(e.func, ast.Attribute) and not (isinstance(e.func.value, ast.Name) and e.func.value.id in ("np", "numpy", "scipy"))
+        cp = kwarg(e, "copy")
+        if meth and nm in _VIEW_METHODS:
+            return _may_alias(e.func.value, params)
+        if meth and nm == "astype":
+            return _may_alias(e.func.value, params) if (cp is not None and const_value(cp) == (True, False)) else None
+        if not meth and nm == "array" and e.args:
+            return _may_alias(e.args[0], params) if (cp is not None and const_value(cp) in ((True, False), (True, None))) else None
+        if not meth and nm in _NOCOPY_FUNCS and e.args:
+            return _may_alias(e.args[0], params)
+    return None
+
+
+# ---- layout calculus: which axis does every factor of the phase exponent vary along, relative to the array it multiplies -------------
+L_SCALAR, L_ALONG, L_TRACE, L_VEC, L_COL, L_RAW = "scalar", "along-axis", "per-trace", "1-D", "column", "unshaped shifts"
+
+
+def _mentions(e, names):
+    return any(isinstance(n, ast.Name) and n.id in names for n in ast.walk(e))
+
+
+def _strip_rows(e):
+    """x[a:b] / x[a:b, :] -> x (a block of rows of a two-dimensional layout keeps the layout)"""
+    while isinstance(e, ast.Subscript) and (isinstance(e.slice, ast.Slice) or (isinstance(e.slice, ast.Tuple) and e.slice.elts and isinstance(e.slice.elts[0], ast.Slice)
+                                                                              and all(isinstance(x, ast.Slice) and x.lower is None and x.upper is None for x in e.slice.elts[1:]))):
+        e = e.value
+    return e
+
+
+def _reshape_parts(e):
+    """(receiver, shape) of x.reshape(shape) / np.reshape(x, shape) else None"""
+    if isinstance(e, ast.Call) and call_name(e) == "reshape":
+        if isinstance(e.func, ast.Attribute) and not (isinstance(e.func.value, ast.Name) and e.func.value.id in ("np", "numpy")):
+            shp = e.args[0] if len(e.args) == 1 else ast.Tuple(elts=list(e.args), ctx=ast.Load())
+            return e.func.value, shp
+        if len(e.args) >= 2:
+            return e.args[0], e.args[1]
+    return None
+
+
+def _axis_only(shp, params):
+    """shape that is 1 everywhere except along the shift axis (the entry along the axis is free: -1, ns, nbins)"""
+    return _axis_only_shape(shp, params)
+
+
+def _is_col(shp):
+    return isinstance(shp, ast.Tuple) and len(shp.elts) == 2 and const_value(shp.elts[0]) == (True, -1) and const_value(shp.elts[1]) == (True, 1)
+
+
+def _layout(e, params, scalar_path):
+    """Layout of one factor of the exponent."""
+    sp = params[1]
+    e = _strip_rows(e) if _mentions(e, [sp]) else e
+    rp = _reshape_parts(e)
+    if rp is not None:
+        inner, shp = rp
+        if _axis_only(shp, params):
+            li = _layout(inner, params, scalar_path)
+            return L_ALONG if li in (L_VEC, L_ALONG) else (L_SCALAR if li == L_SCALAR else None)
+        if _unit_axis_shape(shp, params):
+            li = _layout(inner, params, scalar_path)
+            return L_TRACE if li in (L_RAW, L_TRACE, L_COL) else None
+        if _is_col(shp):
+            li = _layout(inner, params, scalar_path)
+            return L_COL if li in (L_RAW, L_COL) else None
+        return None
+    if isinstance(e, ast.Name) and e.id == sp:
+        return L_SCALAR if scalar_path else L_RAW
+    if isinstance(e, ast.Call) and call_name(e) in _WRAP + ("float",) and (e.args or isinstance(e.func, ast.Attribute)):
+        inner = e.args[0] if e.args and not (isinstance(e.func, ast.Attribute) and not (isinstance(e.func.value, ast.Name) and e.func.value.id in ("np", "numpy"))) else e.func.value
+        return _layout(inner, params, scalar_path)
+    if isinstance(e, ast.UnaryOp):
+        return _layout(e.operand, params, scalar_path)
+    if isinstance(e, ast.Call) and call_name(e) in ("angle", "real", "imag", "conj", "unwrap"):
+        return _layout(e.args[0], params, scalar_path) if e.args else None
+    if isinstance(e, ast.Call) and call_name(e) in ("rfft", "fft"):
+        a = e.args[0] if e.args else None
+        ax = kwarg(e, "axis")
+        if a is None:
+            return None
+        la = _layout(a, params, scalar_path)
+        if la == L_ALONG and loc_name(ax) == "axis":
+            return L_ALONG
+        if la == L_VEC and ax is None:
+            return L_VEC
+        return None
+    if isinstance(e, ast.Call) and call_name(e) == "__setitem":
+        return _layout(e.args[0], params, scalar_path)
+    if isinstance(e, ast.Call) and call_name(e) in ("zeros", "ones", "empty") and e.args:
+        shp = e.args[0]
+        if _axis_only(shp, params):
+            return L_ALONG
+        if not isinstance(shp, (ast.Tuple, ast.List)) and not _mentions(shp, [params[0]]) or (isinstance(shp, ast.BoolOp)):
+            return L_VEC   # zeros(ns): one-dimensional
+        return None
+    if isinstance(e, ast.Call) and call_name(e) in ("arange", "linspace", "rfftfreq"):
+        return L_VEC
+    if isinstance(e, ast.BinOp) and isinstance(e.op, (ast.Mult, ast.Div, ast.Add, ast.Sub, ast.FloorDiv, ast.Mod)):
+        ls = [_layout(x, params, scalar_path) for x in (e.left, e.right)]
+        if None in ls:
+            return None
+        ls = [x for x in ls if x != L_SCALAR]
+        if not ls:
+            return L_SCALAR
+        return ls[0] if len(set(ls)) == 1 else "mixed:" + "+".join(sorted(set(ls)))
+    if not _mentions(e, [sp, params[0]]) and not any(isinstance(n, ast.Call) and call_name(n) in ("zeros", "ones", "arange", "linspace", "rfft", "fft", "rfftfreq")
+                                                    for n in ast.walk(e)):
+        return L_SCALAR
+    return None
+
+
+def _factors(e):
+    if isinstance(e, ast.BinOp) and isinstance(e.op, ast.Mult):
+        return _factors(e.left) + _factors(e.right)
+    if isinstance(e, ast.BinOp) and isinstance(e.op, ast.Div):
+        return _factors(e.left) + [e.right]
+    if isinstance(e, ast.UnaryOp) and isinstance(e.op, ast.USub):
+        return _factors(e.operand)
+    return [e]
+
+
+def _axis_last_entailed(assume):
+    """Do the branch assumptions of the path entail that the shift axis is the last one?"""
+    from sa import guards as GD
+    at = GD.Atoms()
+    fs = [GD.formula(t, at, pol) for t, pol in assume]
+    if not fs:
+        return False
+    pc = GD.And(*fs) if len(fs) > 1 else fs[0]
+    goals = []
+    for k, ex in at.exprs.items():
+        if isinstance(ex, ast.Compare) and len(ex.ops) == 1 and loc_name(ex.left) == "axis" and isinstance(ex.ops[0], ast.In) and isinstance(ex.comparators[0], (ast.Tuple, ast.List, ast.Set)):
+            vals = ex.comparators[0].elts
+            if all(const_value(v) == (True, -1) or (isinstance(v, ast.BinOp) and isinstance(v.op, ast.Sub) and const_value(v.right) == (True, 1) and src(v.left).endswith(".ndim"))
+                   for v in vals):
+                goals.append(GD.Atom(k))
+        if isinstance(ex, ast.Compare) and len(ex.ops) == 1 and isinstance(ex.ops[0], ast.Eq):
+            a, b = ex.left, ex.comparators[0]
+            for x, y in ((a, b), (b, a)):
+                if loc_name(x) == "axis" and (const_value(y) == (True, -1) or (isinstance(y, ast.BinOp) and isinstance(y.op, ast.Sub) and const_value(y.right) == (True, 1)
+                                                                                and src(y.left).endswith(".ndim"))):
+                    goals.append(GD.Atom(k))
+    if not goals:
+        return False
+    goal = GD.Or(*goals) if len(goals) > 1 else goals[0]
+    return GD.entails(pc, goal) is True
+
+
+def model_layout(ctx, repo, fi):
+    """D3 on the layout model. For every phase factor on every path: the bin-dependent ramp varies ALONG the shift axis of the array it
+    multiplies and the per-trace shifts vary along all the OTHER axes. Raises Undecided when a factor's layout is not understood."""
+    params = fi.params
+    sp = params[1]
+    paths = _sym_paths(fi.node.body, _PathRec(), [4000])
+    sites = []
+    seen = set()
+    for pth in paths:
+        for orig, tgt, val, assume in pth.sites:
+            key = (id(orig), tuple(sorted((src(t), pol) for t, pol in assume)))
+            if key in seen:
+                continue
+            seen.add(key)
+            sites.append((orig, tgt, val, assume))
+    if not sites:
+        raise Undecided("no phase factor multiplies the spectrum")
+    results = []
+    for orig, tgt, val, assume in sites:
+        kinds = set()
+        for t, pol in assume:
+            k = _scalar_test(t, sp)
+            if k is not None:
+                kinds.add(k if pol else {"scalar": "array", "array": "scalar"}[k])
+        scalar_path = "scalar" in kinds and "array" not in kinds
+        # locate the exp call inside the statement value and the reshape that may wrap it
+        expc = [c for c in ast.walk(val) if isinstance(c, ast.Call) and call_name(c) == "exp"]
+        if len(expc) != 1:
+            raise Undecided("several exp() calls in one statement")
+        expc = expc[0]
+        outer_shape = None
+        if val is not expc:
+            rp = _reshape_parts(val)
+            if rp is not None and rp[0] is expc:
+                outer_shape = rp[1]
+            elif isinstance(val, ast.BinOp) and isinstance(val.op, ast.Mult) and tgt is None:
+                other = val.left if val.right is expc or (_reshape_parts(val.right) or [None])[0] is expc else val.right
+                side = val.right if other is val.left else val.left
+                tgt = other
+                if side is not expc:
+                    outer_shape = _reshape_parts(side)[1]
+            else:
+                raise Undecided(f"phase factor used as `{src(val)[:60]}`")
+        if tgt is None:
+            raise Undecided("phase factor does not multiply the spectrum in place")
+        # target layout
+        t0 = _strip_rows(tgt)
+        flat = False
+        rp = _reshape_parts(t0)
+        if rp is not None and _is_data(rp[0], params):
+            shp = rp[1]
+            if isinstance(shp, ast.Tuple) and len(shp.elts) == 2 and const_value(shp.elts[0]) == (True, -1):
+                flat = True
+            else:
+                raise Undecided(f"spectrum viewed as `{src(t0)[:60]}`")
+        elif not _is_data(t0, params):
+            raise Undecided(f"phase factor multiplies `{src(t0)[:60]}`")
+        last = _axis_last_entailed(assume)
+        facs = _factors(expc.args[0])
+        lays = []
+        for f in facs:
+            lf = _layout(f, params, scalar_path)
+            if lf is None:
+                raise Undecided(f"layout of `{src(f)[:60]}` not understood")
+            lays.append((f, lf))
+        results.append((orig, flat, last, scalar_path, outer_shape, lays))
+    n = 0
+    for orig, flat, last, scalar_path, outer_shape, lays in results:
+        if flat and not last:
+            n += 1
+            ctx.violation(fi, orig, orig, "the spectrum is laid out as (-1, number of bins) rows - which is the per-trace layout only when the shift axis is the LAST one - on a "
+                          "path that `axis` other than the last can reach: for a shift along axis 0 (time first) the ramps multiply across the wrong dimension",
+                          key="flat-view", name_free=True)
+            continue
+        for f, lf in lays:
+            if lf == L_SCALAR:
+                continue
+            n += 1
+            is_shift = _mentions(f, [sp])
+            if lf.startswith("mixed"):
+                raise Undecided(f"factor `{src(f)[:60]}` mixes layouts")
+            if is_shift:
+                if scalar_path:
+                    ctx.ok(fi, orig, orig, "scalar shift: nothing to broadcast", key="broadcast")
+                    continue
+                good = (lf == L_COL) if flat else (lf == L_TRACE)
+                ctx.check(good, fi, orig, orig, "each trace receives its own shift (shift vector shaped like the data with the shift axis set to 1)",
+                          f"on the path taken for per-trace shifts the shift vector enters the phase as `{src(f)[:70].replace('__setitem', 'setitem')}` ({lf}), not shaped like the data "
+                          "with the shift axis set to 1: the shifts are broadcast along the wrong axis", key="broadcast", name_free=True)
+            else:
+                eff = lf
+                if outer_shape is not None and lf == L_VEC and scalar_path and _axis_only(outer_shape, params):
+                    eff = L_ALONG
+                good = eff == L_ALONG or (eff == L_VEC and (flat or last))
+                ctx.check(good, fi, orig, orig, "the phase ramp varies along the shift axis of the array it multiplies",
+                          f"the bin-dependent ramp `{src(f)[:70].replace('__setitem', 'setitem')}` is {eff}: it broadcasts along the LAST axis whatever `axis` is, so a shift along "
+                          "any other axis multiplies the wrong dimension by the ramp", key="ramp-axis", name_free=True)
+    if n == 0:
+        raise Undecided("nothing evaluated")
+
+
+def phase_model(repo, fi):
+    """-> [(path, substituted exp call, original exp call)] for every path that reaches the phase factor"""
+    budget = [4000]
+    paths = _sym_paths(fi.node.body, _PathRec(), budget)
+    out = []
+    for pth in paths:
+        for sub, orig in pth.exps:
+            out.append((pth, sub, orig))
+    return out
+
+
+def model_broadcast(ctx, repo, fi):
+    """D3 on the model: on every path on which the shifts can be an array, the shift term that enters the exponent is reshaped to the
+    data's shape with the shift axis set to 1."""
+    params = fi.params
+    sp = params[1] if len(params) > 1 else "s"
+    recs = phase_model(repo, fi)
+    if not recs:
+        raise Undecided("no path reaches an exp() phase factor")
+    n = 0
+    for pth, sub, orig in recs:
+        kinds = {_scalar_test(t, sp) if pol else {"scalar": "array", "array": "scalar", None: None}[_scalar_test(t, sp)] for t, pol in pth.assume}
+        if "scalar" in kinds and "array" not in kinds:
+            continue  # shifts are a scalar on this path: nothing to broadcast
+        terms = _shift_term(sub.args[0], sp)
+        if not terms:
+            raise Undecided("the shift parameter does not enter the exponent on a path")
+        for node, shapes, subs in terms:
+            n += 1
+            if subs and not shapes:
+                raise Undecided(f"shift term `{src(node)[:60]}` is oriented by indexing")
+            ok = bool(shapes) and _unit_axis_shape(shapes[-1], params)
+            why = "is never reshaped" if not shapes else f"is reshaped to `{src(shapes[-1])[:80].replace('__setitem', 'setitem')}`"
+            ctx.check(ok, fi, orig, orig, "each trace receives its own shift (shift vector shaped like the data with the shift axis set to 1)",
+                      f"on the path taken for per-trace shifts the shift vector {why}, not to the data's shape with the shift axis set to 1: "
+                      "the shifts are broadcast along the wrong axis", key="broadcast", name_free=True)
+    if n == 0:
+        raise Undecided("no path on which the shifts can be an array reaches the phase factor")
+
+
 def d3_broadcast(ctx):
     ctx.rule("D3", "non-scalar s is reshaped to w.shape with [axis] = 1")
     repo = ctx.repo
     fi = repo.fn(FN)
+    try:
+        model_layout(ctx, repo, fi)
+        return
+    except Undecided as e:
+        ctx.note(f"D3: layout model undecided ({e}); falling back to the reshape pattern")
+        ctx.results[:] = [r for r in ctx.results if r.rule != "D3"]
     cfg = CFG(fi.node)
     du = DefUse(fi.node, cfg)
     # every s.reshape(<shape var>) : the shape var must be array(w.shape) with [axis] = 1 stored before, and the call must sit on the non-scalar path
@@ -178,7 +792,11 @@ def d3_broadcast(ctx):
         elif len(c.args) >= 2 and loc_name(c.args[0]) == sp:
             rs.append((c, c.args[1]))                      # np.reshape(s, shape)
     if not rs:
-        ctx.violation(fi, fi.node, "s.reshape(<w.shape with [axis] = 1>)", "per-trace shifts are never reshaped for broadcasting along the non-shift axes", key="broadcast", name_free=True)
+        # no reshape of the parameter itself: decide on the path-sensitive model of the exponent (the shifts may be copied / converted first)
+        try:
+            model_broadcast(ctx, repo, fi)
+        except Undecided as e:
+            raise AnalysisError(f"fshift: how the shifts enter the phase factor is not understood ({e})")
         return
     from sa import guards as GD
     for c, sharg in rs:
@@ -223,7 +841,10 @@ def d4_sign(ctx):
         raise AnalysisError(f"fshift: phase expression not evaluable: {e}")
     want = Poly.sym("J") * Poly.sym("ANGLE") * Poly.sym("s")
     if p != want and "ANGLE" not in p.canon():
-        return _analytic_ramp(ctx, repo, fi, du, exps[0])
+        if _model_impulse_ramp(ctx, repo, fi, want):
+            return _resync(ctx, repo, fi)
+        _analytic_ramp(ctx, repo, fi, du, exps[0])
+        return _resync(ctx, repo, fi)
     ctx.check(p == want, fi, exps[0], f"exponent = {p}", "positive s delays the signal (phase = +angle of a one-sample delay times s)",
               f"phase exponent normalises to {p}, expected {want}: the shift direction or scale is wrong", key="phase")
     ang = [c for c in find(exps[0], ast.Call) if call_name(c) == "angle"]
@@ -259,6 +880,10 @@ def d4_sign(ctx):
             okshape = bool(shp) and any(du.cfg.must_pass([du.cfg.node_for(x)], d.node) for x in shp)
     ctx.check(okshape, fi, shp[0] if shp else fi.node, shp[0] if shp else "shape[axis] = ns",
               "impulse vector has ns samples along the shift axis and 1 elsewhere", "impulse vector is not ns long along the shift axis", key="impulse-shape", name_free=True)
+    _resync(ctx, repo, fi)
+
+
+def _resync(ctx, repo, fi):
     fw = repo.fn("ibldsp.waveforms.wave_shift_corrmax")
     duw = DefUse(fw.node)
     calls = resolved_calls(repo, fw, FN)
@@ -279,6 +904,96 @@ def d4_sign(ctx):
         c = p.coeff("ipeak")
         ctx.check(c == -1 and "floor" in p.canon() or "floordiv" in p.canon(), fw, sd[0].stmt, f"shift = {p}", "reported shift = -(peak lag - centre of the 'same' correlation)",
                   f"reported shift normalises to {p}: sign or centre of the correlation peak is wrong", key="reported")
+
+
+class _ShiftToName(ast.NodeTransformer):
+    """wrapper chains around the shift parameter (array / reshape / row blocks) -> the bare name: they do not change values"""
+
+    def __init__(self, sp):
+        self.sp = sp
+
+    def generic_visit(self, node):
+        node = super().generic_visit(node)
+        cur = node
+        while True:
+            if isinstance(cur, ast.Call) and call_name(cur) in _WRAP + ("reshape",):
+                inner = cur.func.value if isinstance(cur.func, ast.Attribute) and not (isinstance(cur.func.value, ast.Name) and cur.func.value.id in ("np", "numpy")) \
+                    else (cur.args[0] if cur.args else None)
+            elif isinstance(cur, ast.Subscript) and isinstance(cur.slice, (ast.Slice, ast.Tuple)):
+                inner = cur.value
+            else:
+                break
+            if inner is None:
+                break
+            cur = inner
+        if isinstance(cur, ast.Name) and cur.id == self.sp and cur is not node:
+            return ast.Name(id=self.sp, ctx=ast.Load())
+        return node
+
+
+def _model_impulse_ramp(ctx, repo, fi, want):
+    """The exponent, with every local substituted, is 1j * angle(rfft(unit impulse at 1)) * s on every path.  -> False when the
+    substituted exponent has no angle() term (the ramp is analytic)."""
+    try:
+        paths = _sym_paths(fi.node.body, _PathRec(), [4000])
+    except Undecided:
+        return False
+    sites = [(orig, val) for pth in paths for orig, tgt, val, assume in pth.sites]
+    if not sites or not all(any(isinstance(c, ast.Call) and call_name(c) == "angle" for c in ast.walk(val)) for _, val in sites):
+        return False
+    seen = set()
+    for orig, val in sites:
+        expc = [c for c in ast.walk(val) if isinstance(c, ast.Call) and call_name(c) == "exp"][0]
+        k = src(expc)
+        if k in seen:
+            continue
+        seen.add(k)
+        ex = _ShiftToName(fi.params[1]).visit(_copy.deepcopy(expc.args[0]))
+        # reshape of the ramp does not change values either
+        class _R(ast.NodeTransformer):
+            def visit_Call(self, node):
+                self.generic_visit(node)
+                rp = _reshape_parts(node)
+                return rp[0] if rp is not None else node
+        ex = _R().visit(ex)
+        ev = _EvJ(resolve=lambda e: repo.resolve_expr(fi, e))
+        try:
+            pp = ev.ev(ex)
+        except Undecided as e:
+            raise AnalysisError(f"fshift: phase expression not evaluable: {e}")
+        ctx.check(pp == want, fi, orig, f"exponent = {pp}", "positive s delays the signal (phase = +angle of a one-sample delay times s)",
+                  f"phase exponent normalises to {pp}, expected {want}: the shift direction or scale is wrong", key="phase", name_free=True)
+        for ang in [c for c in ast.walk(expc) if isinstance(c, ast.Call) and call_name(c) == "angle"]:
+            a0 = ang.args[0] if ang.args else None
+            rp = _reshape_parts(a0) if a0 is not None else None
+            a0 = rp[0] if rp is not None else a0
+            ok = False
+            oklen = False
+            if isinstance(a0, ast.Call) and call_name(a0) == "rfft" and a0.args:
+                imp = a0.args[0]
+                ax = kwarg(a0, "axis")
+                if isinstance(imp, ast.Call) and call_name(imp) == "__setitem" and const_value(imp.args[1]) == (True, 1) and const_value(imp.args[2]) == (True, 1) \
+                        and isinstance(imp.args[0], ast.Call) and call_name(imp.args[0]) == "zeros" and imp.args[0].args:
+                    ok = True
+                    shp = imp.args[0].args[0]
+                    one_d = not isinstance(shp, (ast.Tuple, ast.List)) and not (isinstance(shp, ast.Call) and call_name(shp) == "__setitem")
+                    if one_d:
+                        # zeros(ns): one-dimensional impulse, transformed along its only axis
+                        oklen = ax is None and (loc_name(shp) == "ns" or (isinstance(shp, ast.BoolOp) and loc_name(shp.values[0]) == "ns")
+                                                or (isinstance(shp, ast.Call) and call_name(shp) == "int" and "ns" in src(shp)))
+                    else:
+                        oklen = loc_name(ax) == "axis" and isinstance(shp, ast.Call) and call_name(shp) == "__setitem" and loc_name(shp.args[1]) == "axis" \
+                            and (loc_name(shp.args[2]) == "ns" or (isinstance(shp.args[2], ast.BoolOp) and loc_name(shp.args[2].values[0]) == "ns"))
+            if not ok:
+                return _fallback_undecided(orig)
+            ctx.ok(fi, orig, orig, "ramp = angle of the rfft of a unit impulse at sample 1", key="impulse")
+            ctx.check(oklen, fi, orig, orig, "impulse vector has ns samples along the transformed axis", "impulse vector is not ns long along the transformed axis",
+                      key="impulse-shape", name_free=True)
+    return True
+
+
+def _fallback_undecided(orig):
+    raise AnalysisError(f"fshift: provenance of the phase ramp in `{src(orig)[:60]}` not understood")
 
 
 class _Rat:
@@ -327,16 +1042,19 @@ def _ramp_eval(e, r, du, at, depth=0):
             return _Rat(Poly.sym("s"))
         if e.id == "pi":
             return _Rat(Poly.sym("PI"))
-        v = expand_name(du, e, at)
+        v = expand_name(du, e, at) if du is not None else e
         if v is not e:
             return rec(v)
         raise Undecided(f"name {e.id}")
+    if isinstance(e, ast.BoolOp) and isinstance(e.op, ast.Or) and len(e.values) == 2 and loc_name(e.values[0]) == "ns" \
+            and isinstance(e.values[1], ast.Subscript) and loc_name(e.values[1].slice) == "axis" and src(e.values[1].value).endswith(".shape"):
+        return _Rat(N)  # ns = ns or w.shape[axis]
     if isinstance(e, ast.Attribute) and e.attr == "pi":
         return _Rat(Poly.sym("PI"))
     if isinstance(e, ast.UnaryOp) and isinstance(e.op, ast.USub):
         return -rec(e.operand)
     if isinstance(e, ast.BinOp):
-        if isinstance(e.op, ast.FloorDiv) and isinstance(e.left, ast.Name) and e.left.id == "ns" and isinstance(e.right, ast.Constant) and e.right.value == 2:
+        if isinstance(e.op, ast.FloorDiv) and isinstance(e.right, ast.Constant) and e.right.value == 2 and rec(e.left).same(_Rat(N)):
             return _Rat(N - Poly.const(r), Poly.const(2))
         a, b = rec(e.left), rec(e.right)
         if isinstance(e.op, ast.Add):
@@ -349,8 +1067,13 @@ def _ramp_eval(e, r, du, at, depth=0):
             return a / b
     if isinstance(e, ast.Call):
         nm = call_name(e)
-        if nm in ("reshape", "astype") and isinstance(e.func, ast.Attribute):
+        if nm in ("reshape", "astype", "copy") and isinstance(e.func, ast.Attribute) and not (isinstance(e.func.value, ast.Name) and e.func.value.id in ("np", "numpy")):
             return rec(e.func.value)
+        if nm in _WRAP + ("reshape", "float", "expand_dims") and e.args:
+            return rec(e.args[0])
+        if nm == "arange" and len(e.args) == 1 and isinstance(e.args[0], ast.Subscript) and loc_name(e.args[0].slice) == "axis" \
+                and isinstance(e.args[0].value, ast.Attribute) and e.args[0].value.attr == "shape" and _is_spectrum(e.args[0].value.value):
+            return _Rat(K)  # one value per bin of the spectrum along the shift axis
         if nm == "arange" and len(e.args) == 1:
             n = rec(e.args[0])
             if not n.same(_Rat(N - Poly.const(r), Poly.const(2)) + _Rat(Poly.const(1))):
@@ -366,16 +1089,53 @@ def _ramp_eval(e, r, du, at, depth=0):
     raise Undecided(f"cannot evaluate {src(e)[:60]}")
 
 
+def _is_spectrum(e):
+    """rfft(w, axis=axis), or the input itself on the path where it already is a spectrum"""
+    if isinstance(e, ast.IfExp):
+        return _is_spectrum(e.body) or _is_spectrum(e.orelse)
+    return isinstance(e, ast.Call) and call_name(e) == "rfft" and loc_name(kwarg(e, "axis")) == "axis"
+
+
+def _bin_vectors(exponent):
+    """arange(...) terms of the exponent with the shape they are given: [(arange call, reshape shape or None)]"""
+    parents = {}
+    for par in ast.walk(exponent):
+        for ch in ast.iter_child_nodes(par):
+            parents[id(ch)] = par
+    out = []
+    for n in ast.walk(exponent):
+        if isinstance(n, ast.Call) and call_name(n) in ("arange", "rfftfreq", "linspace"):
+            shp = None
+            par = parents.get(id(n))
+            if isinstance(par, ast.Attribute) and par.attr == "reshape" and isinstance(parents.get(id(par)), ast.Call):
+                c = parents[id(par)]
+                shp = c.args[0] if len(c.args) == 1 else ast.Tuple(elts=list(c.args), ctx=ast.Load())
+            elif isinstance(par, ast.Call) and call_name(par) == "reshape" and len(par.args) >= 2 and par.args[0] is n:
+                shp = par.args[1]
+            out.append((n, shp))
+    return out
+
+
 def _analytic_ramp(ctx, repo, fi, du, exp_call):
     """The phase ramp is written analytically: bin k of an rfft of length ns must get phase -2*pi*k/ns, for both parities of ns."""
     verdicts = {}
     want = _Rat(Poly.sym("J") * Poly.const(-2) * Poly.sym("PI") * Poly.sym("K") * Poly.sym("s"), Poly.sym("N"))
+    try:
+        recs = phase_model(repo, fi)
+    except Undecided as e:
+        raise AnalysisError(f"fshift: analytic phase expression not evaluable: {e}")
+    exponents = [(sub.args[0], None) for _, sub, orig in recs if orig is exp_call] or [(exp_call.args[0], du)]
     for par, r in (("even", 0), ("odd", 1)):
-        try:
-            got = _ramp_eval(exp_call.args[0], r, du, exp_call)
-        except Undecided as e:
-            raise AnalysisError(f"fshift: analytic phase expression not evaluable: {e}")
-        verdicts[par] = (got.same(want), got)
+        oks, gots = [], []
+        for ex, d in exponents:
+            try:
+                got = _ramp_eval(ex, r, d, exp_call)
+            except Undecided as e:
+                raise AnalysisError(f"fshift: analytic phase expression not evaluable: {e}")
+            oks.append(got.same(want))
+            gots.append(got)
+        bad_i = [i for i, o in enumerate(oks) if not o]
+        verdicts[par] = (not bad_i, gots[bad_i[0]] if bad_i else gots[0])
     bad = [k for k, (ok, _) in verdicts.items() if not ok]
     ctx.check(not bad, fi, exp_call, f"analytic phase: even ns -> {verdicts['even'][1]} ; odd ns -> {verdicts['odd'][1]}",
               "analytic ramp gives bin k the phase -2*pi*k/ns for even and odd lengths",
